@@ -211,7 +211,8 @@ def damage(b, kind, rng):
     b = bytearray(b)
     so = section_offsets(b)
     if kind == 'stop':
-        b[-4:] = rng.choice([b'XXXX', b'7778', b'\x00\x00\x00\x00', b'777 '])
+        b[-4:] = rng.choice([b'XXXX', b'7778', b'\x00\x00\x00\x00', b'777 ',
+                             b'\xff\xff\xff\xff', b'77\x807', b'\xc3\x28\xa0\xa1'])      # incl. bytes that are not UTF-8
     elif kind in ('undef-element', 'undef-sequence'):
         n_desc = (so['l3'] - 7) // 2
         if n_desc <= 0:
